@@ -1,4 +1,5 @@
 """C07 - interrupt dispatch: priority, masking, master enable."""
+import re
 from .. import absint, sm83, terms as T
 from ..terms import C, S, O, AV, fmt, bit_provenance
 from ..affine import diff_const, equal_mod
@@ -226,6 +227,20 @@ def check_ladder(chk, key, r, st_, calls, file):
             break
     if resample is None:
         chk.fail('C07.4', key, 'the priority ladder does not test a pending set sampled after the first push', file, None)
+        return
+    # which bus write produced the sampled state: the SM83 samples IF & IE after the high byte of PC has been pushed and
+    # before the low byte is (only the high-byte write can cancel or re-route the dispatch)
+    gens = [int(x) for x in re.findall(r'@(\d+):', fmt(resample))]
+    hav = [e for e in r.state.events if e[0] == 'havoc']
+    which = set()
+    for g in gens:
+        for n, e in enumerate(hav):
+            if e[2] <= g <= e[3]:
+                which.add(n)
+    if which != {0}:
+        chk.fail('C07.4', key, 'the pending set used by the priority ladder is sampled after bus write(s) %s of the '
+                 'dispatch; it must be sampled after the first (PC high byte) and before the second (PC low byte)'
+                 % sorted(w + 1 for w in which), file, None)
         return
     # find the and(IF', IE') term inside the decision
     pend = find_and(resample)
